@@ -201,7 +201,11 @@ var properties = map[string]*propDef{
 	},
 	"C07": {
 		Level: "exploration",
-		Rule:  "(engine under construction)",
+		Rule:  "cases: a cluster of 1-3 nodes, 1-3 index groups (index channel + 0-2 int64/string data channels) placed on drawn leaseholders, optionally a free virtual channel; a sequential script of writers opened through a drawn gateway on a drawn subset of the groups (+ the free channel), each filling one 100-unit slot of the time axis (slots taken in drawn order, so domains are created before existing ones) with 1-3 frames, then Commit and Close; iterators opened through a drawn gateway on drawn channel subsets and bounds (one step over everything, or a fixed-span sweep), reads of every node's own engine, and opens on channels that do not exist. non-trivial = >=1 write on a cluster of >=2 nodes; distinct = hash of the case shape",
+		Real:  []string{"core/pkg/distribution: Layer, channel service, framer writer/iterator services (gateway, peer, switches, synchronizers, broadcaster), proxy; core/pkg/distribution/mock + transport/mock in-memory networks; aspen (membership + kv gossip) over its in-memory transport; one in-memory cesium and pebble per node \u2014 all real code, map ranges made deterministic by the overlay"},
+		Stub:  []string{"network: the repository's in-memory transports (no sockets)", "disks: in-memory file systems (no disk faults, no restarts)", "clock: testing/synctest bubble (virtual time for gossip and polling); goroutines of the cluster run freely (no seeded scheduler): scripts are sequential"},
+		Assumptions: []string{"reference: per channel a timestamp->value map of the committed samples (what a single store given the same writes holds; C01 decides the single-store semantics)", "the boolean acknowledgement of iterator commands is not judged (the synchronizer forwards the last responder's acknowledgement, not the merged one; recorded as an observation): the frame is read after every step", "a gateway is used once it has learnt of every channel through metadata gossip (bounded wait in virtual time)"},
+		RequiredProbes: []string{"write_local", "write_remote", "write_mixed", "write_with_free_channel", "write_before_existing_data", "read_remote", "read_mixed", "local_stores_checked", "open_on_missing_channel_refused"},
 		Units: []unit{{
 			Name: "core-framer", Module: "core", Package: "./pkg/distribution/framer", Passes: []string{"detrange"}, Engines: []string{"c07"},
 			QuickBudget: 30 * time.Second, QuickWorkers: 8, ThoroughBudget: 12 * time.Minute, ThoroughWorkers: 16,
@@ -241,7 +245,11 @@ var properties = map[string]*propDef{
 	},
 	"C17": {
 		Level: "exploration",
-		Rule:  "(engine under construction)",
+		Rule:  "engine c17: histories over 6 row ids with colliding indexed values: create/update/delete through the table's builders on the DB or inside up to three interleaved transactions that commit or abort in any order, foreign writes that reach the indexes only through the change observer, table close+reopen over existing rows (bulk populate), queries from drawn filter trees (lookup-index and sorted-index equality leaves, key sets, predicates, And/Or/Not) as Exec/Count/Exists answered three ways (reference model with per-transaction overlays, index-backed query, scan-only query), direct index Get with and without a transaction, ordered cursor pages; at the end the indexes' committed state must equal the live rows. engine c17-conc: 2-3 tasks run transaction scripts concurrently under the seeded scheduler (rows shared, or disjoint rows sharing index buckets); afterwards the committed index state must equal the table. non-trivial = >=4 operations; distinct = case shape (+ scheduler trace hash)",
+		Real:  []string{"x/go/gorp (Table, LookupIndex, SortedIndex, delta overlay, filters, Retrieve/Create/Update/Delete, observer pipeline, populate), x/go/kv + in-memory pebble, x/go/observe \u2014 real code; c17-conc with sync/atomic/channel/select/timer points instrumented by the overlay"},
+		Stub:  []string{"disk: in-memory pebble", "goroutine scheduler: verifsim/sim (c17-conc); c17 runs each case in a bubble so populate/observer goroutines end with the case"},
+		Assumptions: []string{"transactions are pebble indexed batches: a transaction reads its own writes over the CURRENT committed state (read committed), last committer wins", "ordered iteration reads committed state (documented); a page is judged by the indexed values in walk order, and by its rows when unbounded", "bare key-set filters and key sets with repeated keys are outside the statement (no index involved)"},
+		RequiredProbes: []string{"query_three_way", "query_inside_tx_with_staged_writes", "interleaved_open_transactions", "tx_aborted_with_staged_writes", "foreign_write_through_observer", "table_reopened_over_existing_rows", "indexed_value_changed", "ordered_page", "concurrent_transactions_case", "concurrent_disjoint_rows_shared_buckets"},
 		Units: []unit{{
 			Name: "x-gorp", Module: "x/go", Package: "./gorp", Passes: allPasses, Engines: []string{"c17", "c17-conc"},
 			QuickBudget: 25 * time.Second, QuickWorkers: 8, ThoroughBudget: 12 * time.Minute, ThoroughWorkers: 16,
